@@ -230,11 +230,50 @@ def runVqHist (toks : List String) : String :=
   | none => "bad-case"
   | some h => checkHist h
 
+/-- `vq sched <act> …`: an explicit schedule of model actions (used for interleavings the harness
+forces through sync points); prints what the receive calls returned -/
+def parseAct (s : St Nat) (tok : String) : Option (Act Nat) :=
+  let num (p : String) : Option Nat := (tok.drop p.length).toString.toNat?
+  if tok.startsWith "st" then
+    let (d, id) := splitAt1 (tok.drop 2).toString ':'
+    match d.toNat?, id.toNat? with
+    | some d, some id => some (.sendTimer d id)
+    | _, _ => none
+  else if tok.startsWith "tick" then (num "tick").map .tick
+  else if tok = "callT" then some (.call .tryRecv 0)
+  else if tok = "callB" then some (.call .recv 0)
+  else if tok.startsWith "callR" then (num "callR").map fun d => .call .recvTimeout d
+  else if tok = "clk" then some .readClock
+  else if tok = "fold" then some .foldPick
+  else if tok.startsWith "cancel" then (num "cancel").bind fun n => (s.created[n]?).map fun c => .cancel c.key
+  else if tok.startsWith "send" then (num "send").map .send
+  else if tok.startsWith "prio" then (num "prio").map .sendPrio
+  else if tok = "wakeplain" then some (.wake .plain)
+  else if tok = "wakeprio" then some (.wake .prio)
+  else if tok = "wakecmd" then some (.wake .cmd)
+  else if tok = "waketimer" then some (.wake .timer)
+  else if tok = "waketimeout" then some (.wake .timeout)
+  else none
+
+def runVqSched (toks : List String) : String :=
+  let rec go (s : St Nat) (ts : List String) : Option (St Nat) :=
+    match ts with
+    | [] => some s
+    | t :: rest => match parseAct s t with
+      | none => none
+      | some a => match step s a with
+        | some s' => go s' rest
+        | none => none
+  match go {} toks with
+  | none => "schedule-not-enabled"
+  | some s => "[" ++ ",".intercalate (s.returned.map fun o => showOut o.1) ++ "]"
+
 def runVq2 (ws : List String) : String :=
   match ws with
   | "seq" :: toks => runVqSeq toks
   | "conc" :: toks => runVqConc toks
   | "hist" :: toks => runVqHist toks
+  | "sched" :: toks => runVqSched toks
   | _ => "bad-case"
 
 end Mio.Driver
